@@ -20,8 +20,9 @@ THEOREMS = [
     "MoreExec.Poll.C08_prompt",
     "MoreExec.Poll.C08_cancel_fn_argument",
     "MoreExec.Poll.C08_cancel_fn_veto",
+    "MoreExec.Poll.C08_source_facts",
 ]
-KERNELS = []
+KERNELS = ["K17"]
 BUDGET = {"quick": 150, "thorough": 1500}
 ASSUMPTIONS = [
     "AP1: `_poll_descriptors` is rebound/appended only under `PollExecutor._lock`; each outermost acquisition is one section "
